@@ -37,6 +37,10 @@ WRITE_CMDS = {"APWR", "FPWR", "BWR", "LWR", "APRW", "FPRW", "BRW", "LRW",
 
 
 def run(chk, repo):
+    chk.doc("R21.8", "per-packet bookkeeping is per packet")
+    per_instance_rule(chk, repo, "R21.8", ["ebpfcat.ebpfcat.SterilePacket"], "the writers recorded "
+                      "for one group's frame are sterilised and activated "
+                      "in every other group's frame as well")
     chk.doc("R21.1", "sterile typestate of frames sent by fast groups")
     chk.doc("R21.2", "activation order")
     chk.doc("R21.3", "program structure and wkc_errors gating")
